@@ -81,6 +81,50 @@ func (c01) Gen(r *Rng, tier string, emit func(string, Tok)) {
 		}
 		emit("af-sizes", muxCaseTok(7, ops))
 	}
+	// typed descriptors in the PMT, handed to AddElementaryStream as a caller writes them (struct Length correct, 0 or
+	// wrong; zero-item bodies): every PMT that comes out must list them in parsed form (C01_roundtrip_typed_desc_written)
+	for k := 0; k < scale(tier, 24, 240); k++ {
+		var ops []muxOp
+		nstreams := r.Range(1, 3)
+		sts := []astits.StreamType{astits.StreamTypeH264Video, astits.StreamTypeAACAudio, astits.StreamTypePrivateData}
+		for j := 0; j < nstreams; j++ {
+			ops = append(ops, muxOp{kind: opAdd, es: &astits.PMTElementaryStream{ElementaryPID: uint16(0x110 + j), StreamType: sts[r.Intn(len(sts))],
+				ElementaryStreamDescriptors: c14GenLoop(r, 7, 150/nstreams-5)}}) // the PMT must fit one packet
+		}
+		ops = append(ops, muxOp{kind: opSetPCR, pid: 0x110})
+		for j := 0; j < r.Range(2, 4); j++ {
+			pid := uint16(0x110 + r.Intn(nstreams))
+			ops = append(ops, muxOp{kind: opData, d: &astits.MuxerData{PID: pid, PES: &astits.PESData{Data: r.Bytes(r.Range(1, 400)),
+				Header: &astits.PESHeader{OptionalHeader: &astits.PESOptionalHeader{MarkerBits: 2, PTSDTSIndicator: astits.PTSDTSIndicatorOnlyPTS, PTS: &astits.ClockReference{Base: int64(90000 + 3600*j)}}}}}})
+		}
+		ops = append(ops, muxOp{kind: opTables})
+		if nstreams > 1 {
+			ops = append(ops, muxOp{kind: opRemove, pid: uint16(0x110 + nstreams - 1)}, muxOp{kind: opTables})
+		}
+		emit("typed-desc", muxCaseTok(r.Range(1, 50), ops))
+	}
+}
+
+// c01ExpectStreams: the streams a PMT must list for the configuration cfg -- PID, stream type and the descriptors in the
+// form parseDescriptors returns them; ok = every descriptor lies in the domain of the C14 round trip
+func c01ExpectStreams(cfg []*astits.PMTElementaryStream) (string, bool) {
+	var out []astits.PMTElementaryStream
+	for _, e := range cfg {
+		c := astits.PMTElementaryStream{ElementaryPID: e.ElementaryPID, StreamType: e.StreamType}
+		for _, d := range e.ElementaryStreamDescriptors {
+			if d == nil || !c14WfDesc(d) || !c14OnlyBody(d) {
+				return "", false
+			}
+			c.ElementaryStreamDescriptors = append(c.ElementaryStreamDescriptors, c14ExpectParsed(d))
+		}
+		out = append(out, c)
+	}
+	return ToTok(out).String(), true
+}
+
+// c01EmitsTables: the bytes of a call start with a packet on PID 0 (the PAT of a table emission)
+func c01EmitsTables(b []byte) bool {
+	return len(b) >= 376 && b[0] == 0x47 && b[1]&0x1f == 0 && b[2] == 0
 }
 
 // c01NoPackets drops WritePacket calls: C01 quantifies over Add/Remove/SetPCRPID/WriteTables/WriteData histories (a raw
@@ -153,6 +197,8 @@ func (c01) Oracle(c Tok, obs Tok) string {
 		st  astits.StreamType
 	}
 	var streams []es
+	var cfg []*astits.PMTElementaryStream // the configured streams with their descriptors, insertion order
+	var wantPMT []string                  // per table emission: what the PMT must list ("" = descriptors outside C14's domain)
 	var want = map[uint16][]c01PES{}
 	tables := 0
 	pending := tables
@@ -160,6 +206,13 @@ func (c01) Oracle(c Tok, obs Tok) string {
 	for i, o := range ops {
 		cl := calls[i]
 		out = append(out, cl.bytes...)
+		if (o.kind == opTables || o.kind == opData) && c01EmitsTables(cl.bytes) {
+			w, ok := c01ExpectStreams(cfg)
+			if !ok {
+				w = ""
+			}
+			wantPMT = append(wantPMT, w)
+		}
 		switch o.kind {
 		case opAdd:
 			if cl.code == -1 {
@@ -173,12 +226,16 @@ func (c01) Oracle(c Tok, obs Tok) string {
 					}
 				}
 				streams = append(streams, es{pid, o.es.StreamType})
+				e := *o.es
+				e.ElementaryPID = pid
+				cfg = append(cfg, &e)
 			}
 		case opRemove:
 			if cl.code == -1 {
 				for k, s := range streams {
 					if s.pid == o.pid {
 						streams = append(append([]es{}, streams[:k]...), streams[k+1:]...)
+						cfg = append(append([]*astits.PMTElementaryStream{}, cfg[:k]...), cfg[k+1:]...)
 						break
 					}
 				}
@@ -223,6 +280,15 @@ func (c01) Oracle(c Tok, obs Tok) string {
 				return "the PAT does not map program 1 to the PMT PID: " + ToTok(*d.PAT).String()
 			}
 		case d.PMT != nil:
+			if npmt < len(wantPMT) && wantPMT[npmt] != "" {
+				var gotES []astits.PMTElementaryStream
+				for _, e := range d.PMT.ElementaryStreams {
+					gotES = append(gotES, *e)
+				}
+				if g := ToTok(gotES).String(); g != wantPMT[npmt] {
+					return fmt.Sprintf("PMT %d does not list the configured streams with their descriptors in parsed form: delivered %s expected %s", npmt, g, wantPMT[npmt])
+				}
+			}
 			npmt++
 		}
 	}
